@@ -789,6 +789,10 @@ func (w *World) commit(c *ContactState, rec *SessionRec, call *Call, o *Outcome)
 			}
 			for i := 0; i < n; i++ {
 				task := &Task{Kind: tMsg, Contact: c.Idx, Text: w.personaText(qrs)}
+				if c.LastSaid != "" && w.T.Chance("repeats_last_answer", 1, 4) {
+					task.Text = c.LastSaid // asked again, the same answer again
+				}
+				c.LastSaid = task.Text
 				if w.T.Chance("attachment", 1, 8) {
 					task.Attach = []string{"image/jpeg:http://s3.example.com/photo.jpg"}
 				}
@@ -870,6 +874,21 @@ func (w *World) reachProbes(c *Call) {
 		case "webhook_called":
 			if r, _ := e["retries"].(float64); r > 0 {
 				w.probe("reach_http_retry_performed")
+			}
+		case "msg_created":
+			if m, _ := e["msg"].(gen.J); m != nil {
+				if m["templating"] != nil {
+					w.probe("reach_templated_msg")
+				}
+				if qr, _ := m["quick_replies"].([]any); len(qr) > 0 {
+					w.probe("reach_msg_with_quick_replies")
+				}
+				if at, _ := m["attachments"].([]any); len(at) > 0 {
+					w.probe("reach_msg_with_attachments")
+				}
+				if m["unsendable_reason"] != nil {
+					w.probe("reach_unsendable_msg")
+				}
 			}
 		}
 	}
